@@ -17,6 +17,26 @@ ASSUMPTIONS = ["the README rule table is re-implemented at part level in harness
 HDR = "From BV Require Import Lib.Regex Lib.Calendar Model.V2 Model.Pep440 Model.Cli."
 
 PARTS_BY_LEN = None
+# (old version, pattern, flags that are on, --date)
+CORPUS = [
+    ("2020.0.1", "YYYY.WW.PATCH", dict(pin_date=True, patch=True), None),            # week 0 must stay 0 under --pin-date
+    ("2020.0.1", "YYYY.UU.PATCH", dict(pin_date=True, patch=True), None),
+    ("2021.00.7", "YYYY.0W.PATCH", dict(pin_date=True, patch=True), None),
+    ("1.0.0", "MAJOR.MINOR.PATCH[PYTAGNUM]", dict(tag="final", tag_num=True), None),  # --tag-num under a final tag
+    ("1.0.0", "MAJOR.MINOR.PATCH[-TAGNUM]", dict(tag="final", tag_num=True), None),
+    ("1.2.3", "MAJOR.MINOR.PATCH", dict(major=True, minor=True, patch=True), None),
+    ("1.2.3-rc1", "MAJOR.MINOR.PATCH[-TAGNUM]", dict(tag_num=True), None),
+    ("1.2.3-rc1", "MAJOR.MINOR.PATCH[-TAGNUM]", dict(tag="rc", tag_num=True), None),
+    ("1.2.3-rc1", "MAJOR.MINOR.PATCH[-TAGNUM]", dict(tag="beta"), None),
+    ("1.2.3-rc1", "MAJOR.MINOR.PATCH[-TAGNUM]", dict(tag="final"), None),
+    ("v2025.1001", "vYYYY.BUILD[-TAG]", dict(), "2024-06-01"),                        # date earlier than the version
+    ("v2025.12.1001", "vYYYY.MM.BUILD", dict(), "2025-03-01"),
+    ("2020.1.5", "YYYY.INC0.INC1", dict(), "2020-06-01"),
+    ("2020.1.5", "YYYY.INC0.INC1", dict(pin_increments=True, pin_date=True), None),
+    ("2020.1.5", "YYYY.INC0.INC1", dict(), "2021-01-01"),
+    ("1.9.9", "MAJOR.MINOR.PATCH", dict(minor=True), None),
+    ("1.9.99-beta", "MAJOR.MINOR[.PATCH][-TAG]", dict(minor=True), None),
+]
 RESET_INIT = {"major": 0, "minor": 0, "patch": 0, "num": 0, "inc0": 0, "inc1": 1}
 CAL_FIELDS = ["year_y", "year_g", "quarter", "month", "dom", "doy", "week_w", "week_u", "week_v"]
 
@@ -148,6 +168,11 @@ def run(rep, tier, seed, model_ok=True, effort=1, for_c01=False):
                 "non-trivial = distinct case whose bump succeeds")
     today = v2gen.ordinal(impl.PINNED_TODAY)
     items, meta = [], []
+    cases = []
+    # corpus of minimised past failures and boundary cases, run first
+    F0 = dict(major=False, minor=False, patch=False, tag=None, tag_num=False, pin_increments=False, pin_date=False)
+    for old, pat, upd, date_arg in CORPUS:
+        cases.append((pat, dict(wf=True, cal=None), old, dict(F0, **upd), date_arg, None))
     for i in range(n):
         pat, info, v, d, old, fl, nd = gen_case(r, impl)
         if not old:
@@ -158,6 +183,14 @@ def run(rep, tier, seed, model_ok=True, effort=1, for_c01=False):
             date_arg = r.choice(["2020-13-01", "yesterday", "2020-02-30"])
         if fl["pin_date"] and r.random() < 0.1:
             date_arg = nd.isoformat()
+        cases.append((pat, info, old, fl, date_arg, nd))
+    for pat, info, old, fl, date_arg, nd in cases:
+        use_date = date_arg is not None
+        if nd is None and date_arg is not None:
+            try:
+                nd = dt.date.fromisoformat(date_arg)
+            except ValueError:
+                nd = None
         args = ["test", old, pat] + flag_args(fl, date_arg)
         code, out, exc = impl.run_cli(args)
         new = impl.parse_new_version(out) if code == 0 else None
@@ -167,8 +200,8 @@ def run(rep, tier, seed, model_ok=True, effort=1, for_c01=False):
         rep.count("flags=%d" % sum(1 for k in fl if fl[k]))
         if code == 0 and new is None:
             rep.violation("exit 0 without announcing a version", input=dict(args=args, out=out), **{"class": "no-announcement"})
-        eff_date = nd if (use_date and date_arg == nd.isoformat()) else impl.PINNED_TODAY
-        if code == 0 and new and info["wf"] and date_arg in (None, nd.isoformat()):
+        eff_date = nd if (use_date and nd is not None and date_arg == nd.isoformat()) else impl.PINNED_TODAY
+        if code == 0 and new and info["wf"] and (date_arg is None or (nd is not None and date_arg == nd.isoformat())):
             check_spec(rep, impl, old, pat, fl, eff_date, new)
         # Coq case
         if date_arg is None:
